@@ -3,6 +3,7 @@
 cd "$(dirname "$0")"
 mkdir -p build evidence replays
 python3 translate/tables.py >/dev/null 2>&1 || true
+python3 translate/statics.py >/dev/null 2>&1 || true
 cd lean
 lake build 2>&1 | grep -v auto_activate_base | tail -3
 # property modules are separate targets so that a broken one cannot break the others
